@@ -803,7 +803,7 @@ def run_case(ctx: Ctx, spec, sc, lines_out=None, only_cfg=None):
         if alt and cfg["solver"] == "func-only":
             try:
                 out2, info2, ok2 = run_simulate(m, db, span, alt, **kw)
-                diff = None if ok != ok2 and False else same_databox_paths(out, out2, all_names, span_full)
+                diff = same_databox_paths(out, out2, all_names, span_full)
                 ctx.count("spelling:equivalence-checked")
                 if ok != ok2 or diff:
                     ctx.fail("method-spelling-differs", case_payload(spec, sc, cfg),
